@@ -110,4 +110,23 @@ PROPERTIES = {
         "targets": [{"name": "c10_hist_k%d" % k, "src": "c10_image_container.cpp", "mode": "asan", "rapidcheck": True,
                      "flags": ["-DC10_KIND=%d" % k, '-DVERIF_TARGET_NAME="c10_hist_k%d"' % k], "subtargets": ["hist"], "kind": k} for k in range(7)],
     },
+    "C05": {
+        "level": "exploration",
+        "assumptions": [
+            "pairs are formed only between compatible pixels (same colour space, same channel value types), as the operations require",
+            "channel_type / operator[] / raw memory order are checked for homogeneous pixels only (heterogeneous packed pixels have no single channel type)",
+        ],
+        "targets": [{"name": "c05_pixels", "src": "c05_pixel_semantics.cpp", "mode": "asan", "flags": ['-DVERIF_TARGET_NAME="c05_pixels"'], "subtargets": ["pair", "single"]}],
+    },
+    "C08": {
+        "level": "exploration",
+        "assumptions": [
+            "only carriers the library itself chooses or documents are used (bit_aligned_image*_type picks min_fast_uint<bit_size+7>; packed_pixel_type in a 16/32-bit field)",
+            "bit numbering is little-endian within the carrier, as the reader defines it",
+        ],
+        "targets": [
+            {"name": "c08_bits", "src": "c08_packed_bits.cpp", "mode": "fast", "flags": ['-DVERIF_TARGET_NAME="c08_bits"'], "subtargets": ["ba", "iter", "packed16", "refs"], "exclusive": True},
+            {"name": "c08_bits_san", "src": "c08_packed_bits.cpp", "mode": "asan", "flags": ['-DVERIF_TARGET_NAME="c08_bits_san"', "-DVERIF_STRIDE=4"], "subtargets": [], "threads": 8, "subset": True},
+        ],
+    },
 }
